@@ -428,6 +428,23 @@ def check_degenerate(pi, axis_i, angle_i, extra):
         d = float(np.abs(np.asarray(got, dtype=float) - want).max())
         if d > 1e-3 * max(1.0, float(np.abs(want).max())):
             return f"{name}: apply() on {label} deviates by {d:.4f} from the matrix form (axis {axis.tolist()}, angle {ang:.4f})"
+    # non-rigid input: the mobile structure is deformed. No rigid placement has a lower RMSD over the anchors than the
+    # returned one - compared with the closed-form optimum (Kabsch / Umeyama in float64, written here: the optimal RMSD^2
+    # is (|X|^2 + |Y|^2 - 2 (s1 + s2 + d s3)) / n with the singular values of the covariance and d = sign(det))
+    bump = np.array([[0.31 * ((i * 7) % 5 - 2), 0.17 * ((i * 3) % 4 - 1.5), 0.23 * ((i * 5) % 3 - 1)] for i in range(len(allpts))])
+    deformed = (allpts + bump) @ R.T + np.array([3.0, -1.0, 2.0])
+    fit2, tr2 = struc.superimpose(allpts.astype(np.float32), deformed.astype(np.float32), atom_mask=mask)
+    X = allpts[sel] - allpts[sel].mean(axis=0)
+    Y = deformed[sel] - deformed[sel].mean(axis=0)
+    U, S, Vt = np.linalg.svd(Y.T @ X)
+    d_ = np.sign(np.linalg.det(U @ Vt)) or 1.0
+    best2 = max(0.0, float(((X ** 2).sum() + (Y ** 2).sum() - 2 * (S[0] + S[1] + d_ * S[2])) / len(X)))
+    got2 = float(((np.asarray(fit2, dtype=float)[sel] - allpts[sel]) ** 2).sum(axis=1).mean())
+    rot2 = np.asarray(tr2.rotation, dtype=float).reshape(3, 3)
+    if abs(np.linalg.det(rot2) - 1) > 1e-3:
+        return f"{name} (deformed): rotation with determinant {np.linalg.det(rot2):.4f}"
+    if np.sqrt(got2) > np.sqrt(best2) + 2e-3:
+        return f"{name} (deformed): RMSD {np.sqrt(got2):.5f} over the anchors, the optimal rigid placement reaches {np.sqrt(best2):.5f} (axis {axis.tolist()}, angle {ang:.4f})"
     rank = np.linalg.matrix_rank(fixed - fixed.mean(axis=0), tol=1e-6)
     if mask is not None and rank == 2:
         # planar anchors determine the proper rotation uniquely: the off-plane atom must come back to its place
